@@ -14,17 +14,17 @@ ID = "C04"
 META = {
     "rule": "every connected multigraph topology (multiset of unordered vertex pairs) on n labelled R^d vertices with at most n+1 edges, n<=3 complete, n=4 (quick: <=4 edges), "
     "thorough n=5 (<=5 edges) x edge flavour pattern (odometry/landmark-with-offset, either orientation, alternating) x d in {2,3} x every non-empty fixed subset "
-    "x initial guess {truth, generic, far 1e6, mixed signs} x information {I, SPD cross terms, cond 1e4, 1e-10 x SPD} x noise {0, generic}; plus structured families "
+    "x initial guess {truth, generic, far 1e6, mixed signs} x information {I, SPD cross terms, cond 1e4, 1e-10 x SPD, edge 0 scaled 1e-5 and the others 1e6} x noise {0, generic}; plus structured families "
     "chain/ring/star/grid/complete with 10, 20, 30 vertices. For init=generic the judged run is the SECOND run on the same Graph object (first run: one more vertex fixed, other initial guess; then released and re-seeded). Oracle: closed-form reduced WLS (Cholesky-whitened lstsq) for poses and chi2. "
     "non-trivial = at least one free vertex and the optimum differs from the initial guess by more than 1e-6",
     "assumptions": ["numpy cholesky/lstsq trusted on <= 90 unknowns", "exhaustive up to 4 (quick) / 5 (thorough) vertices; structured (not exhaustive) families above", "tolerance 1e-7 x (1 + scale)"],
-    "required_classes": ["shared_guess_array", "fix_first_pose_true", "second_run_on_same_graph", "tree", "loop", "multi_edge", "landmark_offset", "reversed_orientation", "several_fixed", "far_init", "ill_conditioned", "noise_free", "noisy", "structured", "d2", "d3"],
+    "required_classes": ["information_scales_1e11_apart", "shared_guess_array", "fix_first_pose_true", "second_run_on_same_graph", "tree", "loop", "multi_edge", "landmark_offset", "reversed_orientation", "several_fixed", "far_init", "ill_conditioned", "noise_free", "noisy", "structured", "d2", "d3"],
     "bounds": {"quick": "n<=3 all; n=4 with <=4 edges; fixed subsets of size <=2; init {generic, far}; Omega {spd, ill}; noise {0 (n<=3), generic}", "thorough": "n<=4 all (<=5 edges); n=5 <=5 edges with single fixed vertex; all factors"},
 }
 
 FLAVOURS = ("odo_fwd", "odo_rev", "lm_fwd", "lm_rev", "alt_type", "alt_orient")
 INITS = ("truth", "generic", "far", "mixed")
-OMS = ("I", "spd", "ill", "tiny")
+OMS = ("I", "spd", "ill", "tiny", "mixed")
 NOISES = ("zero", "generic")
 
 
@@ -82,6 +82,8 @@ def _omega(d, name, k, seed):
         return [[1.0 if i == j else 0.0 for j in range(d)] for i in range(d)]
     if name == "spd":
         return A.spd(d, seed, "c04-%d" % (k % 5))
+    if name == "mixed":  # scales that differ by 1e11 between edges (a weakly attached vertex next to strongly tied ones)
+        return [[(1e-5 if k == 0 else 1e6) * x for x in r] for r in A.spd(d, seed, "c04-%d" % (k % 5))]
     if name == "tiny":  # weak information: gradient entries far below any absolute threshold, same optimum
         return [[1e-10 * x for x in r] for r in A.spd(d, seed, "c04-%d" % (k % 5))]
     # cond 1e4 with cross terms: R diag(1, 1e-4[, 1e-2]) R^T
@@ -182,7 +184,7 @@ def run_chunk(chunk, tier, seed):
         tops = topologies(n, me)
         single = typ == "exh5"
         if tier == "quick":
-            inits, oms, noises = ("generic", "far"), ("spd", "ill", "tiny"), (("zero", "generic") if n <= 3 else ("generic",))
+            inits, oms, noises = ("generic", "far"), ("spd", "ill", "tiny", "mixed"), (("zero", "generic") if n <= 3 else ("generic",))
         elif single:
             inits, oms, noises = ("far",), ("spd",), ("generic",)
         else:
@@ -195,7 +197,7 @@ def run_chunk(chunk, tier, seed):
                     for fixed in _fixed_subsets(n, tier, single):
                         for init in inits:
                             for om in oms:
-                                if tier == "quick" and om == "tiny" and init != "generic":
+                                if tier == "quick" and om in ("tiny", "mixed") and init != "generic":
                                     continue
                                 for nz in noises:
                                     _do(acc, {"n": n, "d": d, "es": [list(e) for e in es], "fl": fl, "fixed": list(fixed), "init": init, "om": om, "noise": nz, "seed": seed})
@@ -268,6 +270,8 @@ def _eval_inner(case):
         classes.append("far_init")
     if case["om"] == "ill":
         classes.append("ill_conditioned")
+    if case["om"] == "mixed":
+        classes.append("information_scales_1e11_apart")
     classes.append("noise_free" if case["noise"] == "zero" else "noisy")
     if case.get("structured"):
         classes.append("structured")
@@ -289,7 +293,8 @@ def _eval_inner(case):
             verts[free[-1]].fixed = True
         for i in free:
             verts[i].pose = type(verts[i].pose)([3.0 - x for x in keep[i]])
-        GB.optimize(g, max_iter=2, fix_first_pose=False)
+        # (when the caller has fixed the first vertex, asking for fix_first_pose=True as well changes nothing - also not afterwards)
+        GB.optimize(g, max_iter=2, fix_first_pose=bool(case["fixed"][0]))
         if len(free) >= 2:
             verts[free[-1]].fixed = False
         for i in free:
@@ -317,12 +322,13 @@ def _eval_inner(case):
             moved = True
         scale = 1.0 + float(np.max(np.abs(x)))
         dd = float(np.max(np.abs(np.array(after[i][2]) - x)))
-        tol = 1e-7 * scale
+        # information scales 1e11 apart: the normal equations have a condition number of 1e11+, double precision leaves ~1e-6
+        tol = (1e-4 if case["om"] == "mixed" else 1e-7) * scale
         ratio = max(ratio, dd / tol) if dd == dd else float("inf")
         if not dd <= tol:
             msgs.append("vertex %d after optimize() = %r but the weighted-least-squares optimum is %r (|diff| %.3g > %.3g; %d iterations, converged=%s)" % (i, after[i][2], x.tolist(), dd, tol, res.num_iterations, res.converged))
     sc2 = 1.0 + max(max(abs(c) for c in b[2]) for b in before)
-    osc = 1e-10 if case["om"] == "tiny" else 1.0
+    osc = 1e-10 if case["om"] == "tiny" else (1e6 if case["om"] == "mixed" else 1.0)
     tolc = 1e-7 * (osc + chi2s) + 1e-18 * sc2 * sc2 * osc
     if not abs(res.final_chi2 - chi2s) <= tolc:
         msgs.append("final_chi2 = %.17g but chi2 at the optimum is %.17g" % (res.final_chi2, chi2s))
